@@ -6,6 +6,7 @@ package props
 
 import (
 	"math/big"
+	"strings"
 	"encoding/json"
 	"fmt"
 	"sort"
@@ -305,7 +306,7 @@ func (r MsgResult) OK() bool { return r.Err == nil && r.Panic == nil }
 func RunMsg(a *c4eapp.App, ctx sdk.Context, msg sdk.Msg) (res MsgResult) {
 	func() {
 		defer func() {
-			if r := recover(); r != nil {
+			if r := notRapid(recover()); r != nil {
 				res.Panic = r
 				res.VBFailed = true
 			}
@@ -332,7 +333,7 @@ func runHandler(ctx sdk.Context, fn func(sdk.Context) (*sdk.Result, error)) (res
 	cctx = cctx.WithEventManager(sdk.NewEventManager())
 	func() {
 		defer func() {
-			if r := recover(); r != nil {
+			if r := notRapid(recover()); r != nil {
 				res.Panic = r
 			}
 		}()
@@ -454,3 +455,17 @@ func bigFromStr(s string) *big.Int {
 }
 
 func intFromInt(i int64) sdk.Int { return sdk.NewInt(i) }
+
+// notRapid re-panics when a recovered value is one of rapid's own control-flow signals
+// (invalid data / stop test): a recover() that wraps code in which draws or t.Fatalf happen must
+// never swallow those.  Returns r otherwise.
+func notRapid(r interface{}) interface{} {
+	if r == nil {
+		return nil
+	}
+	tn := fmt.Sprintf("%T", r)
+	if strings.HasPrefix(tn, "rapid.") {
+		panic(r)
+	}
+	return r
+}
